@@ -19,6 +19,10 @@
 //! 4. Worker threads process transactions asynchronously
 //! 5. Commit thread ensures epoch ordering and applies writes to database
 
+#[cfg(feature = "verif")]
+#[allow(unused_imports)]
+use qbice_verif_rt::{std, crossbeam_channel};
+
 use std::{
     any::{Any, TypeId},
     cell::RefCell,
